@@ -20,7 +20,8 @@ RULE = (
     "(a) all insertion sequences of length <= L over n events with bounds in {-2..2} (quick: n=3,L=3 = 93,196 prefix-tree "
     "nodes; thorough: n=3,L=4 and n=4,L=3), every node reached through copy_stn of its parent; "
     "(b) Hypothesis op lists: add / insert_interval / copy / switch-to-older-copy over <=8 events with int, Fraction and "
-    "mixed bounds.  After every op: check_stn <=> no negative cycle; if consistent the model satisfies every constraint, is "
+    "mixed bounds; (c) dense propagation-heavy op lists over <=5 events (mostly negative precedence bounds, a few positive "
+    "deadlines, copies).  After every op: check_stn <=> no negative cycle; if consistent the model satisfies every constraint, is "
     ">= 0 and equals the least non-negative solution; inconsistent stays inconsistent; sources of copies are unchanged.  "
     "Non-trivial = history containing a cycle among its constraints, a subsumed constraint, or an insertion into a copy "
     "older than its source's latest insertion; distinct by the op sequence."
@@ -202,6 +203,24 @@ def strategy(ctx):
     return st.fixed_dictionaries({"ops": st.lists(op, min_size=1, max_size=40 if ctx.quick else 60).map(lambda l: [list(o) for o in l])})
 
 
+def dense_strategy(ctx):
+    """propagation-heavy histories: few events, many precedence arcs (negative bounds push the model
+    forward through chains and diamonds), a few deadlines (positive bounds closing cycles), insertion
+    order free - the shapes where the incremental propagation can differ from the fixpoint"""
+    ev = st.integers(0, 4)
+    neg = st.sampled_from([-1, -1, -2, -3, -5, "-1/2", -10])
+    pos = st.sampled_from([0, 1, 3, 6, 9, 14, "7/2"])
+    op = st.one_of(
+        st.tuples(st.just("add"), ev, ev, neg),
+        st.tuples(st.just("add"), ev, ev, neg),
+        st.tuples(st.just("add"), ev, ev, neg),
+        st.tuples(st.just("add"), ev, ev, pos),
+        st.tuples(st.just("copy")),
+        st.tuples(st.just("switch"), st.integers(0, 3)),
+    )
+    return st.fixed_dictionaries({"ops": st.lists(op, min_size=4, max_size=16 if ctx.quick else 24).map(lambda l: [list(o) for o in l])})
+
+
 def oracle_factory(ctx):
     def oracle(case):
         flags = run_sequence(case)
@@ -224,6 +243,7 @@ def shard(ctx):
     ctx.extra["exhaustive_space"] = "n=3,L=3" if ctx.quick else "n=3,L=4 and n=4,L=3"
     ctx.nontrivial = {f"{h:x}" for h in ctx.nontrivial}
     ctx.run_hypothesis(strategy(ctx), oracle_factory(ctx), ctx.scale(8000, 100000))
+    ctx.run_hypothesis(dense_strategy(ctx), oracle_factory(ctx), ctx.scale(12000, 200000), salt=1)
 
 
 def replay(ctx, case):
